@@ -97,7 +97,7 @@ def r2_r3(ctx):
     flag_detail = []
 
     def candidates():
-        for c in closures:
+        for c in [b] + closures:
             O = X.Origins(c, P)
             for cm in F.comparisons(c, O):
                 if cm.lex is not None and cm.rex is not None:
@@ -123,7 +123,7 @@ def r2_r3(ctx):
             flag_ok = True
         if "extended_after_index" in rt and "extended_after_index" not in lt and cm.boundary == 1:
             flag_ok = True
-    for c in closures:
+    for c in [b] + closures:
         O = X.Origins(c, P)
         for cs in c.calls():
             if cs.name == "or_else" and "tag" in X.render(O.call_args(cs)[0]):
